@@ -550,7 +550,7 @@ func checkC09(w *World, c *Check, tier string) {
 		c.bad("C09.pair", mp.key, mp.pos, mp.msg)
 	}
 	c.stat("paired_field_comparisons", npair)
-	if npair < 60 {
+	if npair < 40 {
 		c.bad("C09.pair", "floor", "-", fmt.Sprintf("only %d field-to-field comparisons recognised in the Equals methods", npair))
 	} else {
 		c.ok("C09.pair", "all", "-", fmt.Sprintf("%d comparisons in the Equals methods each relate one property of both operands", npair))
@@ -1905,12 +1905,33 @@ func checkEqualsComplete(w *World, c *Check, pr *prover) {
 				return ok && k.Value != nil && k.Value.Kind() == constant.Bool && !constant.BoolVal(k.Value)
 			}
 			blocked := map[*ssa.BasicBlock]bool{}
+			storesFalse := func(in ssa.Instruction) bool {
+				if st, ok := in.(*ssa.Store); ok && isFalse(st.Val) {
+					switch st.Addr.(type) {
+					case *ssa.FreeVar, *ssa.Alloc:
+						return true
+					}
+				}
+				return false
+			}
 			for _, b := range u.Blocks {
 				for _, in := range b.Instrs {
-					if st, ok := in.(*ssa.Store); ok && isFalse(st.Val) {
-						switch st.Addr.(type) {
-						case *ssa.FreeVar, *ssa.Alloc:
-							blocked[b] = true
+					if storesFalse(in) {
+						blocked[b] = true
+					}
+					// … or a call of a local closure that does so on every path (mismatch := func() error { equal = false; return nil })
+					if call, ok := in.(*ssa.Call); ok {
+						if g := resolveClosureFn(pr, call.Common().Value, 0); g != nil && g.Blocks != nil {
+							for _, gb := range g.Blocks {
+								if !dominatesAllReturns(gb) {
+									continue
+								}
+								for _, gin := range gb.Instrs {
+									if storesFalse(gin) {
+										blocked[b] = true
+									}
+								}
+							}
 						}
 					}
 				}
@@ -1954,20 +1975,51 @@ func checkEqualsComplete(w *World, c *Check, pr *prover) {
 					if regions[p][rb] {
 						continue
 					}
-					seenB := map[*ssa.BasicBlock]bool{}
-					work := []*ssa.BasicBlock{u.Blocks[0]}
+					// path search that knows the outcome of a branch on a short-circuit phi for the edge it came in by
+					// (agrees := A && B && …; if !agrees { result = false }: coming from "A is false" the store is taken)
+					type at struct{ b, from *ssa.BasicBlock }
+					seenB := map[at]bool{}
+					work := []at{{u.Blocks[0], nil}}
 					reached := false
 					for len(work) > 0 && !reached {
-						b := work[len(work)-1]
+						cur := work[len(work)-1]
 						work = work[:len(work)-1]
-						if seenB[b] || regions[p][b] || blocked[b] {
+						b := cur.b
+						if seenB[cur] || regions[p][b] || blocked[b] {
 							continue
 						}
-						seenB[b] = true
+						seenB[cur] = true
 						if b == rb {
 							reached = true
 						}
-						work = append(work, b.Succs...)
+						succs := b.Succs
+						if br, isIf := b.Instrs[len(b.Instrs)-1].(*ssa.If); isIf && cur.from != nil && len(b.Succs) == 2 {
+							cnd, neg := br.Cond, false
+							for {
+								un, isNot := cnd.(*ssa.UnOp)
+								if !isNot || un.Op != token.NOT {
+									break
+								}
+								cnd, neg = un.X, !neg
+							}
+							if phi, isPhi := cnd.(*ssa.Phi); isPhi && phi.Block() == b {
+								for pi, pb := range b.Preds {
+									if pb != cur.from || pi >= len(phi.Edges) {
+										continue
+									}
+									if k, isC := phi.Edges[pi].(*ssa.Const); isC && k.Value != nil && k.Value.Kind() == constant.Bool {
+										if constant.BoolVal(k.Value) != neg {
+											succs = b.Succs[:1]
+										} else {
+											succs = b.Succs[1:]
+										}
+									}
+								}
+							}
+						}
+						for _, sc := range succs {
+							work = append(work, at{sc, b})
+						}
 					}
 					if reached {
 						missed = append(missed, p)
@@ -1984,4 +2036,45 @@ func checkEqualsComplete(w *World, c *Check, pr *prover) {
 		}
 	}
 	c.stat("equals_exits", n)
+}
+
+// resolveClosureFn: the function a called function value stands for when it is a closure made in this function or in an
+// enclosing one (directly, through a local it was assigned to once, or through a captured such local).
+func resolveClosureFn(pr *prover, v ssa.Value, d int) *ssa.Function {
+	if v == nil || d > 5 {
+		return nil
+	}
+	switch x := v.(type) {
+	case *ssa.MakeClosure:
+		f, _ := x.Fn.(*ssa.Function)
+		return f
+	case *ssa.Function:
+		if x.Parent() != nil {
+			return x
+		}
+	case *ssa.UnOp:
+		if x.Op != token.MUL {
+			return nil
+		}
+		switch a := x.X.(type) {
+		case *ssa.Alloc:
+			if sts := storesTo(a); len(sts) == 1 {
+				return resolveClosureFn(pr, sts[0].Val, d+1)
+			}
+		case *ssa.FreeVar:
+			if b, ok := pr.fvMap[a]; ok {
+				if al, isAl := b.(*ssa.Alloc); isAl {
+					if sts := storesTo(al); len(sts) == 1 {
+						return resolveClosureFn(pr, sts[0].Val, d+1)
+					}
+				}
+				return resolveClosureFn(pr, b, d+1)
+			}
+		}
+	case *ssa.FreeVar:
+		if b, ok := pr.fvMap[x]; ok {
+			return resolveClosureFn(pr, b, d+1)
+		}
+	}
+	return nil
 }
